@@ -520,6 +520,17 @@ theorem lock_held_across_send_can_deadlock_two :
            .take, .lockPk 0, .added 0 true, .sent 0, .lockPk 1, .added 1 true], ?_⟩
   exact ⟨by decide, stuck_spec (by decide)⟩
 
+/-- a larger writer queue does not help: capacity 4 (the `bounded(1)` channel plus three read-ahead stages), six workers -/
+theorem lock_held_across_send_can_deadlock_cap4 :
+    ∃ acts, let s := runActs true 4 (init [2, 1, 1, 1, 1, 1]) acts
+      final s = false ∧ ∀ a, step true 4 s a = none := by
+  refine ⟨[.begin 0, .checked 0, .lockPk 0, .added 0 true, .sent 0,
+           .begin 0, .begin 1, .begin 2, .begin 3, .begin 4, .begin 5,
+           .checked 0, .checked 1, .checked 2, .checked 3, .checked 4, .checked 5, .take,
+           .lockPk 0, .added 0 true, .sent 0, .lockPk 1, .added 1 true, .sent 1, .lockPk 2, .added 2 true, .sent 2,
+           .lockPk 3, .added 3 true, .sent 3, .lockPk 4, .added 4 true], ?_⟩
+  exact ⟨by decide, stuck_spec (by decide)⟩
+
 /-- the deadlocked state violates the discipline of `progress_of_noLockWhileBlocked` (it has to) -/
 example : ¬ NoLockWhileBlocked (runActs true 1 (init [2, 1, 1]) deadlockSchedule) := by
   rw [deadlockSchedule_end]
